@@ -116,9 +116,35 @@ func ruleC07ExistsMerge(c *Ctx) {
 	n, bad := 0, ""
 	var outerCopy, elemCopy *mapCopy // the two key-by-key copies into the merged row
 	copies := mapCopies(f)
+	copyTB := make([]*TB, len(copies))
+	for i := range copies {
+		copyTB[i] = NewTB()
+	}
+	// the merge may live in a helper (`from[i] = overlayRow(current, item)`): its copies, seen with the helper's
+	// parameters standing for the caller's arguments
+	allInstrs(f, func(_ *ssa.BasicBlock, in ssa.Instruction) {
+		call, ok := in.(*ssa.Call)
+		if !ok || !isUnknownHelper(call.Common().StaticCallee()) {
+			return
+		}
+		h := call.Common().StaticCallee()
+		htb := NewTB()
+		htb.bind = map[*ssa.Parameter]*Term{}
+		for i, p := range h.Params {
+			if i < len(call.Call.Args) {
+				htb.bind[p] = NewTB().Of(call.Call.Args[i])
+			}
+		}
+		for _, hc := range mapCopies(h) {
+			copies = append(copies, hc)
+			copyTB = append(copyTB, htb)
+		}
+	})
+	dstOf := map[*mapCopy]string{}
 	for i := range copies {
 		mc := &copies[i]
-		srcT := NewTB().Of(mc.Src)
+		srcT := copyTB[i].Of(mc.Src)
+		dstOf[mc] = copyTB[i].Of(mc.Dst).String()
 		src := srcT.String()
 		isOuter := srcT.Op == "param" || srcT.Op == "phi" && strings.Contains(src, "p:current") || srcT.Op == "call" && strings.Contains(srcT.Name, "BackwardNavigation")
 		if !isOuter {
@@ -143,7 +169,7 @@ func ruleC07ExistsMerge(c *Ctx) {
 			bad = "the outer row's entries are written after the nested element's: on a name collision the outer column overrides the element's own column inside the EXISTS predicate"
 		case elemCopy.Cond:
 			bad = "the copy of the nested element's entries is filtered by a condition at " + c.P.Pos(elemCopy.Pos) + ": an entry that is skipped (a NULL column, say) lets the outer row's column of the same name show through inside the EXISTS predicate"
-		case NewTB().Of(outerCopy.Dst).String() != NewTB().Of(elemCopy.Dst).String():
+		case dstOf[outerCopy] != dstOf[elemCopy]:
 			bad = "the outer row and the nested element are not merged into the same row"
 		}
 	}
@@ -997,6 +1023,29 @@ func ruleC07ExistsFreshRows(c *Ctx) {
 		}
 		mm, isMM := v.(*ssa.MakeMap)
 		if !isMM {
+			// a helper called for this element that makes the merged row and returns it (one map per call)
+			if call, isCall := v.(*ssa.Call); isCall && isUnknownHelper(call.Common().StaticCallee()) {
+				fresh, inLoopCall := true, false
+				for _, h := range hs {
+					if inNaturalLoop(h, call.Block()) {
+						inLoopCall = true
+					}
+				}
+				allInstrs(call.Common().StaticCallee(), func(_ *ssa.BasicBlock, hin ssa.Instruction) {
+					if r, isRet := hin.(*ssa.Return); isRet && len(r.Results) > 0 {
+						rv := r.Results[0]
+						if mi, isMI := rv.(*ssa.MakeInterface); isMI {
+							rv = mi.X
+						}
+						if _, isMake := rv.(*ssa.MakeMap); !isMake {
+							fresh = false
+						}
+					}
+				})
+				if fresh && inLoopCall {
+					return
+				}
+			}
 			why = append(why, "the element stored at "+c.P.Pos(st.Pos())+" is "+NewTB().Of(v).String()+", not a map made for this element")
 			return
 		}
